@@ -227,6 +227,11 @@ def judge(case, ref, run):
             dead.add(f['gen'])          # observed at once: the host is blocked on this request
         for g in ev.get('on_dead_gens') or []:
             pending.discard(g)
+        if any(f['phase'] == 'raise_in_handler' for f in fired) and kind in ('script', 'probe'):
+            # an exception relayed by a living helper is not a death: what this query and later
+            # queries on the same Script answer is C16's business, not judged here
+            recursion_tainted.add(op['sid'])
+            stats['handler_exceptions'] = stats.get('handler_exceptions', 0) + 1
         if kind == 'script':
             live.add(op['sid'])
             if 'bound_gen' in ev:
@@ -424,6 +429,23 @@ class C14(base.Engine):
             v['req'] = r.randint(lo, max(lo, nreq))
             return v
         batch = _batch_drop_positions(ops)
+        ref = s.get('_ref')
+        if ref is not None and r.random() < 0.12:
+            # the FIRST stateful request a Script ever makes is answered with an exception by the
+            # (living) helper, and the Script is discarded without another request
+            cand = []
+            seen = set()
+            for i, (o, e) in enumerate(zip(s['ops'], ref.events)):
+                if o['op'] == 'probe' and o['sid'] not in seen and e.get('first_state_req'):
+                    seen.add(o['sid'])
+                    cand.append((i, o['sid'], e['first_state_req']))
+                elif o['op'] == 'probe' and e.get('first_state_req'):
+                    seen.add(o['sid'])
+            if cand:
+                i, sid, k = r.choice(cand)
+                ops = [o for j, o in enumerate(ops) if not (o['op'] == 'probe' and o['sid'] == sid and j != i)]
+                faults.append({'phase': 'raise_in_handler', 'req': k, 'exc': r.choice(['ValueError', 'RuntimeError'])})
+                return dict(s, id='%s:plan%d' % (s['id'], n), faults=faults, ops=ops, _ref=None)
         if r.random() < 0.12:
             pass        # no death: only the GC schedule (gc_now entries below) differs from the reference
         elif batch and r.random() < 0.25:
@@ -456,6 +478,20 @@ class C14(base.Engine):
             faults.append(one_fault())
         if r.random() < 0.3:
             ops.insert(r.randrange(len(ops)), {'op': 'gc'})
+        if r.random() < 0.3:
+            # the helper raises an ordinary exception while serving a request (it stays alive):
+            # not a death, but the helper-side bookkeeping must survive it
+            for _ in range(r.randint(1, 2)):
+                f = {'phase': 'raise_in_handler', 'exc': r.choice(['ValueError', 'RuntimeError', 'KeyError'])}
+                if r.random() < 0.6:
+                    # first stateful request of some Script: get_module_info / load_module /
+                    # create_simple_object are typical first requests
+                    f.update(fn=r.choice(['get_module_info', 'load_module', 'create_simple_object',
+                                          'get_compiled_method_return', 'safe_literal_eval']),
+                             occ=r.randint(1, 5))
+                else:
+                    f['req'] = r.randint(1, max(1, nreq))
+                faults.append(f)
         if r.random() < 0.35:
             # the collector runs inside a request: while deletion messages are being flushed
             # (finalizers of other discarded Scripts then append to the queue being drained),
